@@ -102,6 +102,9 @@ def run(rep, tier, seed):
     c01.proof_part(rep, PID, tier)
     npairs = 250 if tier == 'quick' else 5000
     cases = campaign.make_cases(rng, npairs, WEIGHTS)
+    # results with three or more rings that start in one vertex (fans), and nested rings that start in one vertex (wedges);
+    # own generator state, so that the cases above do not depend on this batch
+    cases += campaign.make_cases(random.Random(seed + 7907), max(16, npairs // 12), {'fanout': 0.6, 'wedge': 0.4}, prefix='f')
     impl, model, corr = relcheck.run_all(cases)
     exact = relcheck.exact_flags(cases, impl)
     outs = {}
